@@ -84,6 +84,7 @@ def run(rec):
                             gap_ok = ed.E[1] - ed.E[0] > 1e-6 if len(ed.E) > 1 else True
                             rec.check(ov > 1 - 1e-6 or not gap_ok, f'{ename}:state-not-exact', f'|<exact|psi>| = {ov}', inp)
     mixer_schedule(rec, quick)
+    lanczos_options(rec, quick)
     vumps_check(rec, quick)
 
 
@@ -124,6 +125,42 @@ def mixer_schedule(rec, quick):
                             # (the energy of an unconverged infinite run is an estimate per sweep, not an expectation value)
                             EH = M.H_MPO.expectation_value(out)
                             rec.check(abs(E - EH) < 1e-5, f'{ename}:E-not-expectation-value', f'E={E}, <H>={EH}', inp)
+
+
+def lanczos_options(rec, quick):
+    """eigensolver options: Lanczos with an energy shift, also where the Krylov space is one-dimensional (charge sector of a fully
+    polarised state, converged runs); models with explicit_plus_hc; the reported energy is <psi|H|psi>"""
+    from tenpy.networks.mps import MPS
+    from tenpy.algorithms import dmrg
+    from tenpy.models.xxz_chain import XXZChain
+    from tenpy.models.spins import SpinChain
+    cases = [('XXZ(L=4)', lambda hc: XXZChain({'L': 4, 'Jxx': 1., 'Jz': 1.3, 'hz': 0.05, 'bc_MPS': 'finite', 'explicit_plus_hc': hc}), ['up', 'down']),
+             ('XXZ(L=4) polarised', lambda hc: XXZChain({'L': 4, 'Jxx': 1., 'Jz': 1.3, 'hz': 0.05, 'bc_MPS': 'finite', 'explicit_plus_hc': hc}), ['up', 'up']),
+             ('S1(L=4)', lambda hc: SpinChain({'L': 4, 'S': 1., 'Jx': 1., 'Jy': 1., 'Jz': 0.7, 'bc_MPS': 'finite', 'conserve': 'Sz', 'explicit_plus_hc': hc}), ['up', 'down'])]
+    for mname, mk, pstate in cases:
+        for hc in (False, True):
+            M = mk(hc)
+            L = M.lat.N_sites
+            psi_init = MPS.from_product_state(M.lat.mps_sites(), (pstate * L)[:L], 'finite')
+            for ename, Eng in (('TwoSiteDMRGEngine', dmrg.TwoSiteDMRGEngine), ('SingleSiteDMRGEngine', dmrg.SingleSiteDMRGEngine)):
+                for mixer in ((True,) if quick else (True, 'SubspaceExpansion', None)):
+                    if ename == 'SingleSiteDMRGEngine' and mixer is None:
+                        continue
+                    for shift in (None, -7.5):
+                        opts = {'trunc_params': {'chi_max': 50, 'svd_min': 1e-12}, 'mixer': mixer, 'max_sweeps': 12, 'min_sweeps': 3,
+                                'diag_method': 'lanczos', 'lanczos_params': {'E_shift': shift, 'N_min': 2, 'N_max': 30}, 'max_trunc_err': None,
+                                'mixer_params': {'amplitude': 1e-3, 'decay': 2., 'disable_after': 2}}
+                        inp = {'model': mname, 'explicit_plus_hc': hc, 'engine': ename, 'mixer': str(mixer), 'E_shift': shift}
+                        psi = psi_init.copy()
+                        rec.begin(f'C13 lanczos options {inp}')
+                        ok, res = rec.guarded(f'{ename}[explicit_plus_hc={hc},mixer={mixer}]:exception', lambda: Eng(psi, M, opts).run(), inp)
+                        rec.case(('lanczos', mname, hc, ename, str(mixer), shift), True)
+                        if not ok:
+                            continue
+                        E, out = res
+                        EH = M.H_MPO.expectation_value(out)
+                        rec.check(abs(E - EH) < 1e-8, f'{ename}:E-not-expectation-value[lanczos,E_shift={"set" if shift else None}]', f'E={E}, <H>={EH}', inp)
+                        rec.check(abs(out.norm - 1) < 1e-10 and np.max(np.abs(out.norm_test())) < 1e-8, f'{ename}:not-canonical', '', inp)
 
 
 def vumps_check(rec, quick):
